@@ -15,11 +15,11 @@ import (
 
 // owned-per-call pointer types: objects of these types are created inside the call that uses them.
 var ownedParamTypes = map[string]bool{
-	modPath + ".options":      true, // the local of getOpts, handed to the option closures
-	grammarPath + ".parser":   true, // newParser's allocation, one per Parse
-	grammarPath + ".current":  true, // embedded in the parser
-	grammarPath + ".errList":  true, // allocated by newParser
-	grammarPath + ".Stats":    true, // allocated by newParser
+	modPath + ".options":       true, // the local of getOpts, handed to the option closures
+	grammarPath + ".parser":    true, // newParser's allocation, one per Parse
+	grammarPath + ".current":   true, // embedded in the parser
+	grammarPath + ".errList":   true, // allocated by newParser
+	grammarPath + ".Stats":     true, // allocated by newParser
 	grammarPath + ".savepoint": true,
 }
 
@@ -190,6 +190,58 @@ func classifyRoot(prog *Program, v ssa.Value, seen map[ssa.Value]bool) rootClass
 		if callee != nil && prog.InModule(callee) && returnsFresh(callee) {
 			return rootClass{"fresh", "result of " + callee.Name()}
 		}
+		if callee != nil && prog.InModule(callee) && (callee.Object() == nil || !callee.Object().Exported()) && callee.Signature.Results().Len() == 1 && len(callee.Blocks) > 0 && len(seen) < 24 {
+			// an unexported helper that hands back one of its parameters, possibly extended (append(p, x)): what it returns
+			// is as fresh as what it was given at this call
+			worst := rootClass{"fresh", "result of " + callee.Name()}
+			okAll := true
+			for _, b := range callee.Blocks {
+				for _, ins := range b.Instrs {
+					ret, isRet := ins.(*ssa.Return)
+					if !isRet || len(ret.Results) != 1 {
+						continue
+					}
+					rroot, _ := rootOf(ret.Results[0])
+					// through append chains inside the helper
+					for d := 0; d < 6; d++ {
+						c2, isCall := rroot.(*ssa.Call)
+						if !isCall {
+							break
+						}
+						bi, isB := c2.Call.Value.(*ssa.Builtin)
+						if !isB || bi.Name() != "append" {
+							break
+						}
+						rroot, _ = rootOf(c2.Call.Args[0])
+					}
+					var c rootClass
+					if par, isPar := rroot.(*ssa.Parameter); isPar && par.Parent() == callee {
+						idx := -1
+						for i, q := range callee.Params {
+							if q == par {
+								idx = i
+							}
+						}
+						if idx < 0 || idx >= len(x.Call.Args) {
+							okAll = false
+							continue
+						}
+						c = classifyRoot(prog, x.Call.Args[idx], seen)
+					} else {
+						c = classifyRoot(prog, ret.Results[0], seen)
+					}
+					if c.class != "fresh" && c.class != "owned-param" {
+						return rootClass{c.class, "result of " + callee.Name() + ": " + c.desc}
+					}
+					if c.class == "owned-param" {
+						worst = c
+					}
+				}
+			}
+			if okAll {
+				return worst
+			}
+		}
 		return rootClass{"unknown", "result of " + callName(x.Common())}
 	case *ssa.Extract:
 		if c, ok := x.Tuple.(*ssa.Call); ok {
@@ -217,10 +269,10 @@ func returnsFresh(fn *ssa.Function) bool {
 }
 
 type writeSite struct {
-	fn    *ssa.Function
-	ins   ssa.Instruction
-	what  string
-	cls   rootClass
+	fn   *ssa.Function
+	ins  ssa.Instruction
+	what string
+	cls  rootClass
 }
 
 // collectWrites enumerates every instruction of fns that writes memory (or hands a mutable reference to foreign code).
